@@ -2033,6 +2033,200 @@ def generate_glue():
     return "\n".join(lines) + "\n"
 
 
+# ---- BEGIN dense-time glue (generate_glue_dense) -------------------------------------------------------------------
+DENSE_ONLINE_GLUE_FILE = "rtamt/semantics/abstract_dense_time_online_interpreter.py"
+OUT_GLUE_DN = os.path.join(os.path.dirname(HERE), "lean", "Rtamt", "Py", "GeneratedGlueDn.lean")
+
+
+class GlueDnTr(GlueTr):
+    """The update visitor with the leaf methods of `DenseTimeOnlineUpdateVisitor` (`interp=False`) and the methods of
+    `AbstractDenseTimeOnlineInterpreter` (`interp=True`) -> terms of `Rtamt/Py/GlueDn.lean`."""
+
+    # statements of the interpreter outside the model's state (ast exists; `ast.results` aliases `updateVisitor.results`; the
+    # object of the output variable is only read): kept as *named* steps, by their exact source text only
+    OPAQUE = ("self.exist_ast()",
+              "self.ast.results = self.updateVisitor.results",
+              "out = self.ast.var_object_dict[self.ast.out_var]")
+    VISIT_AST = "self.updateVisitor.visitAst(self.ast, self.online_operator_dict, self.ast.var_object_dict)"
+    FROMKEYS = "self.ast.var_object_dict.fromkeys(self.ast.var_object_dict, [])"
+    SUPER_SET_AST = "super(AbstractDenseTimeOnlineInterpreter, self).set_ast(ast)"
+
+    def __init__(self, cls, leaf_cls=None, base_cls=None, interp=False):
+        GlueTr.__init__(self, cls, leaf_cls, base_cls)
+        self.interp = interp
+
+    def unsup(self, node_or_text):
+        return "(.unsupported %s)" % q(node_or_text if isinstance(node_or_text, str) else src(node_or_text))
+
+    def tm(self, e):
+        """a time stamp of a signal literal: a non-negative integer literal or `float("inf")`"""
+        if isinstance(e, ast.Constant) and isinstance(e.value, int) and not isinstance(e.value, bool) and e.value >= 0:
+            return "(.lit %d)" % e.value
+        if isinstance(e, ast.Call) and isinstance(e.func, ast.Name) and e.func.id == "float" and len(e.args) == 1 and not e.keywords \
+                and isinstance(e.args[0], ast.Constant) and e.args[0].value == "inf":
+            return ".inf"
+        return None
+
+    def expr(self, e):
+        t = src(e)
+        if isinstance(e, ast.Constant) and isinstance(e.value, bool):
+            return "(.boolLit %s)" % ("true" if e.value else "false")
+        # [[t1, e1], [t2, e2]]
+        if isinstance(e, ast.List) and len(e.elts) == 2 and all(isinstance(p_, ast.List) and len(p_.elts) == 2 for p_ in e.elts):
+            ts = [self.tm(p_.elts[0]) for p_ in e.elts]
+            if all(x is not None for x in ts):
+                return "(.sigLit2 %s %s %s %s)" % (ts[0], self.expr(e.elts[0].elts[1]), ts[1], self.expr(e.elts[1].elts[1]))
+            return self.unsup(e)
+        # x[len(x) - 1]
+        if isinstance(e, ast.Subscript) and isinstance(e.value, ast.Name) and isinstance(e.slice, ast.BinOp) \
+                and isinstance(e.slice.op, ast.Sub) and isinstance(e.slice.right, ast.Constant) and e.slice.right.value == 1 \
+                and not isinstance(e.slice.right.value, bool) and src(e.slice.left) == "len(%s)" % e.value.id:
+            return "(.lastOf %s)" % q(e.value.id)
+        if not self.interp:
+            if t == "self.constants_sent":
+                return ".flag"
+            return GlueTr.expr(self, e)
+        # the interpreter's methods: no `node`, none of the visitor's dictionaries
+        if isinstance(e, ast.Name):
+            return "(.loc %s)" % q(e.id)
+        if t == self.VISIT_AST:
+            return ".visitAst"
+        if isinstance(e, ast.Subscript) and src(e.value) == "data" and self.in_data_loop and isinstance(e.slice, ast.Constant) \
+                and isinstance(e.slice.value, int) and not isinstance(e.slice.value, bool) and e.slice.value >= 0:
+            return "(.dataIdx %d)" % e.slice.value
+        if isinstance(e, ast.Compare) and len(e.ops) == 1 and isinstance(e.ops[0], ast.In):
+            if src(e.comparators[0]) == "self.ast.free_vars":
+                return "(.inFreeVars %s)" % self.expr(e.left)
+            if src(e.comparators[0]) == "self.online_operator_dict":
+                return "(.inOps %s)" % self.expr(e.left)
+        if t == "self.ast.out_var_field":
+            return ".outVarField"
+        if isinstance(e, ast.List) and not e.elts:
+            return ".emptyList"
+        return self.unsup(e)
+
+    in_data_loop = False
+    cur = None                 # the method being translated
+
+    def method(self, name):
+        self.cur = self.methods.get(name)
+        try:
+            return GlueTr.method(self, name)
+        finally:
+            self.cur = None
+
+    def ret_block(self, stmts, target, where):
+        """Statements that end in `return e`, possibly with `if c: return e0` on the way (an if / else, the rest of the statements
+        being the else branch): the returned value assigned to `target`."""
+        for i, s in enumerate(stmts):
+            if not any(isinstance(x, ast.Return) for x in ast.walk(s)):
+                continue
+            before = [self.stmt(x) for x in stmts[:i]]
+            if isinstance(s, ast.Return):
+                if s.value is None or i != len(stmts) - 1:
+                    return self.unsup("return inside " + where)
+                if not (isinstance(s.value, ast.Name) and s.value.id == target):
+                    before.append("(.setLoc %s %s)" % (q(target), self.expr(s.value)))
+                return self.seq(before)
+            if isinstance(s, ast.If) and not s.orelse and i < len(stmts) - 1:
+                return self.seq(before + ["(.ite %s %s %s)" % (self.expr(s.test), self.ret_block(s.body, target, where),
+                                                              self.ret_block(stmts[i + 1:], target, where))])
+            return self.unsup("return inside " + where)
+        return self.unsup("no return in " + where)
+
+    def inline_leaf(self, call, target):
+        m = self.leaf.get(call.func.attr)
+        if m is None or not call.args or src(call.args[0]) != "node":
+            return None
+        return self.ret_block(list(m.body), target, m.name)
+
+    def stmt(self, s):
+        if not self.interp:
+            return GlueTr.stmt(self, s)
+        t = src(s)
+        if t in self.OPAQUE:
+            return "(.opaque %s)" % q(t)
+        if isinstance(s, ast.Pass) or (isinstance(s, ast.Expr) and isinstance(s.value, ast.Constant)):
+            return ".skip"
+        if isinstance(s, ast.Expr) and isinstance(s.value, ast.Call):
+            c = s.value
+            if t == self.SUPER_SET_AST and self.cur is not None and [a.arg for a in self.cur.args.args] == ["self", "ast"]:
+                return ".superSetAst"
+            # `self.m(dataset)`, `m` a method of the class with the one parameter `dataset` and no `return`: inlined;
+            # likewise `self.m(self.ast)` for a method with the one parameter `ast`, which its body must not assign
+            par = {"dataset": "dataset", "self.ast": "ast"}.get(src(c.args[0])) if len(c.args) == 1 else None
+            if isinstance(c.func, ast.Attribute) and src(c.func.value) == "self" and c.func.attr in self.methods and not c.keywords \
+                    and par is not None:
+                m = self.methods[c.func.attr]
+                # (its locals must not occur in the calling method)
+                mine = {x.id for x in ast.walk(m) if isinstance(x, ast.Name) and isinstance(x.ctx, ast.Store)}
+                theirs = {x.id for x in ast.walk(self.cur) if isinstance(x, ast.Name)} if self.cur is not None else None
+                if [a.arg for a in m.args.args] == ["self", par] and not m.args.vararg and not m.args.kwarg \
+                        and not any(isinstance(x, ast.Return) for st in m.body for x in ast.walk(st)) \
+                        and theirs is not None and not (mine & theirs) and m is not self.cur and par not in mine:
+                    outer, self.cur = self.cur, m
+                    try:
+                        return self.block(m.body)
+                    finally:
+                        self.cur = outer
+            return self.unsup(s)
+        if isinstance(s, ast.Assign) and len(s.targets) == 1:
+            tg, v = s.targets[0], s.value
+            if isinstance(tg, ast.Name):
+                return "(.setLoc %s %s)" % (q(tg.id), self.expr(v))
+            if src(tg) == "self.updateVisitor.constants_sent":
+                return "(.setFlag %s)" % self.expr(v)
+            if isinstance(tg, ast.Subscript) and src(tg.value) == "self.ast.var_object_dict":
+                return "(.setVar %s %s)" % (self.expr(tg.slice), self.expr(v))
+            if src(tg) == "self.ast.var_object_dict" and src(v) == self.FROMKEYS:
+                return ".clearVars"
+            return self.unsup(s)
+        if isinstance(s, ast.If):
+            return "(.ite %s %s %s)" % (self.expr(s.test), self.block(s.body), self.block(s.orelse))
+        if isinstance(s, ast.For) and not s.orelse and src(s.target) == "data" and src(s.iter) == "dataset" and not self.in_data_loop:
+            self.in_data_loop = True
+            try:
+                return "(.forData %s)" % self.block(s.body)
+            finally:
+                self.in_data_loop = False
+        return self.unsup(s)
+
+
+def generate_glue_dense():
+    """The update visitor of the dense-time online interpreter and `AbstractDenseTimeOnlineInterpreter.update`."""
+    def classes(path):
+        return {n.name: n for n in ast.parse(open(os.path.join(REPO, path)).read()).body if isinstance(n, ast.ClassDef)}
+    cls, cls2, cls3 = classes(ONLINE_GLUE_FILE), classes(DENSE_ONLINE_GLUE_FILE), classes(AST_VISITOR_FILE)
+    lines = ["/- GENERATED by harness/py2lean.py from %s, %s and %s of /repo on every run - do not edit. -/"
+             % (ONLINE_GLUE_FILE, DENSE_ONLINE_GLUE_FILE, AST_VISITOR_FILE),
+             "import Rtamt.Py.GlueDn", "", "namespace Rtamt.Py.Gen.GlueDn", "open Rtamt Rtamt.Py.GDn", ""]
+    missing = "{ body := (.unsupported \"missing\"), ret := none }"
+    names = []
+    up = GlueDnTr(cls["AbstractOnlineUpdateVisitor"], cls2.get("DenseTimeOnlineUpdateVisitor"), cls3.get("AbstractAstVisitor")) \
+        if "AbstractOnlineUpdateVisitor" in cls and "DenseTimeOnlineUpdateVisitor" in cls2 else None
+    for nm in ("visitAst", "visitBinary", "visitUnary", "visitLeaf"):
+        lines.append("/-- `AbstractOnlineUpdateVisitor.%s`%s -/" % (nm, " (`visitConstant` / `visitVariable` of `DenseTimeOnlineUpdateVisitor` inlined)"
+                                                                 if nm == "visitLeaf" else ""))
+        lines.append("def update_%s : GMethod :=\n  %s" % (nm, (up.method(nm) if up is not None else None) or missing))
+        lines.append("")
+        names.append("update_" + nm)
+    it = GlueDnTr(cls2["AbstractDenseTimeOnlineInterpreter"], None, None, interp=True) if "AbstractDenseTimeOnlineInterpreter" in cls2 else None
+    lines.append("/-- `AbstractDenseTimeOnlineInterpreter.update` (`set_variable_to_ast_from_dataset` inlined) -/")
+    lines.append("def interp_update : GMethod :=\n  %s" % ((it.method("update") if it is not None else None) or missing))
+    lines.append("")
+    names.append("interp_update")
+    for nm, note in (("set_ast", ""), ("reset", " (`set_ast` inlined)")):
+        lines.append("/-- `AbstractDenseTimeOnlineInterpreter.%s`%s -/" % (nm, note))
+        lines.append("def interp_%s : GMethod :=\n  %s" % (nm, (it.method(nm) if it is not None else None) or missing))
+        lines.append("")
+        names.append("interp_" + nm)
+    lines.append("def methods : List (String × GMethod) :=\n  [%s]" % ", ".join("(%s, %s)" % (q(n), n) for n in names))
+    lines.append("")
+    lines.append("end Rtamt.Py.Gen.GlueDn")
+    return "\n".join(lines) + "\n"
+# ---- END dense-time glue (generate_glue_dense) ---------------------------------------------------------------------
+
+
 # ---- BEGIN specification-level forwarding (rtamt/spec/abstract_specification.py -> Rtamt/Py/GeneratedFwd.lean) ----
 SPEC_FILE = "rtamt/spec/abstract_specification.py"
 OUT_FWD = os.path.join(os.path.dirname(HERE), "lean", "Rtamt", "Py", "GeneratedFwd.lean")
@@ -2272,6 +2466,7 @@ def main():
     write_if_changed(OUT_CLOCK, generate_clock())
     write_if_changed(OUT_EXPL, generate_expl())
     write_if_changed(OUT_GLUE, generate_glue())
+    write_if_changed(OUT_GLUE_DN, generate_glue_dense())     # dense-time glue
     write_if_changed(OUT_FWD, generate_fwd())
     write_if_changed(OUT_NAMES, generate_names())
     write_if_changed(OUT_HOR, generate_horizon())
